@@ -88,8 +88,9 @@ CONFIGS = {
     "quick": [
         dict(name="4n-2ants-2it", n=4, which=(0, 2), tours=(T4A[:3], T4B), C=_c(2, 2, (1, 2))),
         dict(name="4n-3ants-2it-decay.95", n=4, which=(0, 2), tours=(T4LS, T4B[:1]), C=_c(3, 2, (19, 20))),
-        dict(name="5n-2ants-3it", n=5, which=(0, 1), tours=(T5A[:3], T5B[:1]), C=_c(2, 3, (3, 4))),
-        dict(name="4n-2ants-2it-localsearch", n=4, which=(0, 2), tours=(T4LS, T4B[:1]), C=_c(2, 2, (1, 2), ls=True)),
+        dict(name="5n-2ants-3it", n=5, which=(0, 1), tours=([T5A[0], T5A[2]], T5B[:1]), C=_c(2, 3, (3, 4))),
+        dict(name="4n-2ants-2it-localsearch", n=4, which=(0, 2), tours=(T4LS[:2], T4B[:1]), C=_c(2, 2, (1, 2), ls=True)),
+        dict(name="4n-2ants-1it-localsearch", n=4, which=(0, 2), tours=(T4LS, T4B), C=_c(2, 1, (19, 20), ls=True)),
         dict(name="4n-2ants-1it-nls", n=4, which=(0, 2), tours=(T4LS, T4B[:1]), C=_c(2, 1, (1, 2), ls=True, npert=1)),
     ],
     "thorough": [
@@ -138,22 +139,41 @@ def hkey(h):
     return json.dumps(h, separators=(",", ":"))
 
 
-def model_check(ci, cfg):
+def action_counts(cfg, table):
+    """states reached by each action of ACO.tla, counted from the lines Emit printed (every state of pc "pher" / "sample" /
+    "done" is printed with its history, and the history holds the inputs of Sample / LocalSearch / Perturb)"""
+    smp, ls, pert = set(), set(), set()
+    for k in table["R"]:
+        h = json.loads(k)
+        pre, (s, l, c, _) = hkey(h[:-1]), h[-1]
+        smp.add((pre, hkey(s)))
+        if l:
+            ls.add((pre, hkey(s), hkey(l)))
+        for p in range(1, len(c) + 1):
+            pert.add((pre, hkey(s), hkey(l), hkey(c[:p])))
+    return {"Init": 1, "Sample": len(smp), "LocalSearch": len(ls), "Perturb": len(pert), "UpdateResults": len(table["R"]),
+            "UpdatePheromone": len(table["P"]), "Final": len(table["F"])}
+
+
+def model_check(ci, cfg, with_cov):
     insts = family(cfg)
     wd, root = tlc.prepare("aco_%d" % ci, module="ACO")
     f = os.path.join(wd, "family.json")
     tlc.dump_json(f, {"insts": [{k: x[k] for k in ("N", "D", "tours")} for x in insts]})
     tlc.write_cfg(wd, root, constants=cfg["C"], invariants=INVARIANTS, properties=PROPERTIES)
-    r = tlc.run(wd, root, workers=2, env={"ACO_FILE": f}, coverage=True, timeout=1500, heap="3g")
-    cov = r.coverage()
+    r = tlc.run(wd, root, workers=1, env={"ACO_FILE": f}, coverage=with_cov, timeout=1500, heap="2g")
     tup = fast_tuples(r.out)
     table = {t: {hkey(x[1]): x[2] for x in tup[t]} for t in "RPF"}
-    want = {"R": cov.get("UpdateResults", (0, 0))[0], "P": cov.get("UpdatePheromone", (0, 0))[0], "F": cov.get("Final", (0, 0))[0]}
+    acts = action_counts(cfg, table)
     if not r.violated:
-        for t in "RPF":
-            if len(table[t]) != want[t]:
-                raise tlc.TLCError("ACO: parsed %d of %d '%s' states" % (len(table[t]), want[t], t))
-    return insts, r, table
+        # binding: every state TLC found is accounted for by a printed line (nothing was lost in parsing)
+        if sum(acts.values()) != r.distinct:
+            raise tlc.TLCError("ACO: %d states, printed lines account for %d (%s)" % (r.distinct, sum(acts.values()), acts))
+        if with_cov:
+            cov = {k: v[0] for k, v in r.coverage().items()}
+            if any(cov.get(k, 0) != v for k, v in acts.items()):
+                raise tlc.TLCError("ACO: TLC coverage %s, printed lines %s" % (cov, acts))
+    return insts, r, table, acts
 
 
 # ----------------------------------------------------------------------------------------------------------------
@@ -775,24 +795,45 @@ def nar_records(tier, seed, viol):
 
             guarded("NARGNNPolicy", envname, {"torch_seed": sd}, nargnn)
 
-            # ---- AntSystem.get_logp: the colony's own sampling distribution (pheromone^alpha * heuristic^beta, normalised)
-            def get_logp():
+            # ---- AntSystem with require_logprobs: the colony's own sampling distribution (pheromone^alpha * heuristic^beta,
+            #      normalised over the feasible nodes), iteration by iteration from the records get_logp() joins
+            state = {}
+
+            def colony():
                 Rec = world[0]
                 alpha, beta, temp = 1.5, 0.75, 0.5
                 torch.manual_seed(sd + 3)
                 heur = Heat()(td0)[0].detach()
-                n_it = 3
+                n_it = 4
                 aco = Rec(heur.clone(), n_ants=K, alpha=alpha, beta=beta, temperature=temp, require_logprobs=True)
                 aco.run(td0.clone(), env, n_it)
-                lps, acts, rews, _ = aco.get_logp()
-                for t in range(n_it):
+                state["aco"], state["records"] = aco, [(a.clone(), b.clone(), c.clone()) for (a, b, c, _) in aco.all_records]
+                for t, (lp, acts, rew) in enumerate(state["records"]):
                     ph = aco.rec["at_sampling"][t].double()
                     heat = alpha * torch.log(ph) + beta * (heur.double() / temp)
-                    ref, masks, forced = heat_reference(env, td0, heat, acts[t], K, True)
-                    recs.extend(decode_records("AntSystem.get_logp/iteration%d" % (t + 1), envname, lps[t], acts[t], rews[t], ref, masks,
-                                               forced, lps[t].sum(1)))
+                    ref, masks, forced = heat_reference(env, td0, heat, acts, K, True)
+                    recs.extend(decode_records("AntSystem(require_logprobs)/iteration%d" % (t + 1), envname, lp, acts, rew, ref, masks,
+                                               forced, lp.sum(1)))
 
-            guarded("AntSystem.get_logp", envname, {"torch_seed": sd, "n_ants": K, "n_iterations": 3}, get_logp)
+            guarded("AntSystem(require_logprobs)", envname, {"torch_seed": sd, "n_ants": K, "n_iterations": 4}, colony)
+
+            # ---- get_logp(): the accessor returns exactly these records (stacked over the iterations)
+            def get_logp():
+                if "aco" not in state:
+                    return
+                lps, acts, rews, _ = state["aco"].get_logp()
+                for t, (lp, a, rw) in enumerate(state["records"]):
+                    L = lp.shape[1]
+                    ok = (torch.equal(lps[t][:, :L], lp) and torch.equal(acts[t][:, :L], a) and torch.equal(rews[t], rw)
+                          and bool((lps[t][:, L:] == 0).all()))
+                    if not ok:
+                        viol.append({"property": "C11", "env": "AntSystem.get_logp/" + envname, "monitor": "get_logp-returns-recorded-steps",
+                                     "inst": {"torch_seed": sd, "iteration": t + 1}, "actions": a.tolist(),
+                                     "detail": "get_logp()[%d] differs from the log-probabilities / actions / rewards recorded in iteration %d"
+                                               % (t, t + 1)})
+
+            guarded("AntSystem.get_logp", envname, {"torch_seed": sd, "n_ants": K, "n_iterations": 4,
+                                                    "episode_lengths": [r[0].shape[1] for r in state.get("records", [])]}, get_logp)
     return recs, notes
 
 
@@ -818,18 +859,18 @@ def violations(tier, seed):
 
     # ---- (a) model checking (configurations in parallel JVMs) + replay
     cfgs = CONFIGS[tier]
-    with cf.ThreadPoolExecutor(max_workers=2 if tier == "quick" else 3) as ex:
-        checked = list(ex.map(lambda a: model_check(*a), enumerate(cfgs)))
+    with cf.ThreadPoolExecutor(max_workers=4) as ex:      # 4 JVMs x 1 worker
+        checked = list(ex.map(lambda a: model_check(a[0], a[1], tier != "quick"), enumerate(cfgs)))
     world = _world()
     states = transitions = 0
     per_cfg, model_viol = [], []
     n_beh = n_cmp = n_runs = 0
-    for cfg, (insts, r, table) in zip(cfgs, checked):
+    for cfg, (insts, r, table, acts) in zip(cfgs, checked):
         states += r.distinct
         transitions += r.generated
         model_viol += r.violated
         entry = {"name": cfg["name"], "constants": cfg["C"], "tours": [x["tours"] for x in insts], "states": r.distinct, "depth": r.depth,
-                 "tlc_wall_s": round(r.wall, 1), "tlc_action_coverage": {k: v[0] for k, v in r.coverage().items()}}
+                 "tlc_wall_s": round(r.wall, 1), "tlc_action_coverage": acts}
         if r.violated:
             per_cfg.append(entry)
             continue
